@@ -247,7 +247,7 @@ fn first_order(run: &Run) {
     // configurations
     #[derive(Clone)]
     enum Cfg {
-        Adam(f64, f64, f64),
+        Adam(f64, f64, f64, f64),
         Sgd(f64, f64, bool),
     }
     let mut jobs: Vec<(usize, usize, Cfg)> = Vec::new();
@@ -259,7 +259,13 @@ fn first_order(run: &Run) {
                 }
                 for &b1 in &betas {
                     for &b2 in &betas {
-                        jobs.push((pi, si, Cfg::Adam(st, b1, b2)));
+                        jobs.push((pi, si, Cfg::Adam(st, b1, b2, 1e-8)));
+                        // epsilon is a hyper-parameter too
+                        if b1 == 0.9 && b2 == 0.999 {
+                            for eps in [1e-4, 1e-2, 1.0] {
+                                jobs.push((pi, si, Cfg::Adam(st, b1, b2, eps)));
+                            }
+                        }
                     }
                 }
                 for &m in &moms {
@@ -276,13 +282,13 @@ fn first_order(run: &Run) {
         let theta0 = &p.starts[*si];
         let data: Vec<&[f64]> = p.data.iter().map(|v| &v[..]).collect();
         let (traj, site, desc) = match cfg {
-            Cfg::Adam(st, b1, b2) => (adam_model(p.f, theta0, &data, *st, *b1, *b2, 1e-8, kmax), "Adam", format!("Adam(step={}, beta1={}, beta2={}, eps=1e-8) on {} from {:?}", st, b1, b2, p.name, theta0)),
+            Cfg::Adam(st, b1, b2, eps) => (adam_model(p.f, theta0, &data, *st, *b1, *b2, *eps, kmax), "Adam", format!("Adam(step={}, beta1={}, beta2={}, eps={:e}) on {} from {:?}", st, b1, b2, eps, p.name, theta0)),
             Cfg::Sgd(st, m, n) => (sgd_model(p.f, theta0, &data, *st, *m, *n, kmax), if *n { "SGD-nesterov" } else if *m > 0.0 { "SGD-momentum" } else { "SGD-plain" }, format!("SGD(step={}, momentum={}, nesterov={}) on {} from {:?}", st, m, n, p.name, theta0)),
         };
         let call = |k: usize| -> Result<Vec<f64>, String> {
             match cfg {
-                Cfg::Adam(st, b1, b2) => {
-                    let o = Adam::new(*st, *b1, *b2, 1e-8);
+                Cfg::Adam(st, b1, b2, eps) => {
+                    let o = Adam::new(*st, *b1, *b2, *eps);
                     guard(|| o.optimize(p.f, theta0, &data, k).v.clone())
                 }
                 Cfg::Sgd(st, m, n) => {
@@ -337,8 +343,8 @@ fn first_order(run: &Run) {
         let k = 17;
         let (a, b) = (call(k), call(k));
         let reused = match cfg {
-            Cfg::Adam(st, b1, b2) => {
-                let o = Adam::new(*st, *b1, *b2, 1e-8);
+            Cfg::Adam(st, b1, b2, eps) => {
+                let o = Adam::new(*st, *b1, *b2, *eps);
                 guard(|| {
                     let _ = o.optimize(p.f, theta0, &data, 5);
                     o.optimize(p.f, theta0, &data, k).v.clone()
@@ -669,7 +675,7 @@ fn dd_solve(a: &[DD], b: &[DD], n: usize) -> Option<Vec<f64>> {
 }
 
 pub fn run(run: &Run) {
-    run.rule("Adam and SGD (plain, momentum, Nesterov): 13 objectives (convex and indefinite quadratics in 1..3 and 8 dimensions, two of them running away under the larger steps so that the objective overflows while the iterates are still finite, Rosenbrock, least-squares losses built from exp, sin, powi and division) × 2 starts × step sizes {1e-4,1e-2,.25,.5} (capped per objective) × β1,β2 in {.5,.9,.999}² / momentum {0,.5,.9,.99} × Nesterov on/off × every budget k in 0..=32 and every 8th to 200 (0..=64 and every 8th to 2000 thorough), each compared with the published recurrence stepped by the harness; LM: linear (constant, line, quadratic, cubic), exponential and logistic curve fits with fixed noise patterns, 5/12/40/200 points, good and poor starts, every budget 0..=60 (200) and 200; every (configuration, budget) pair is a distinct non-trivial case");
+    run.rule("Adam and SGD (plain, momentum, Nesterov): 13 objectives (convex and indefinite quadratics in 1..3 and 8 dimensions, two of them running away under the larger steps so that the objective overflows while the iterates are still finite, Rosenbrock, least-squares losses built from exp, sin, powi and division) × 2 starts × step sizes {1e-4,1e-2,.25,.5} (capped per objective) × β1,β2 in {.5,.9,.999}² (ε = 1e-8, and ε in {1e-4,1e-2,1} at β = (.9,.999)) / momentum {0,.5,.9,.99} × Nesterov on/off × every budget k in 0..=32 and every 8th to 200 (0..=64 and every 8th to 2000 thorough), each compared with the published recurrence stepped by the harness; LM: linear (constant, line, quadratic, cubic), exponential and logistic curve fits with fixed noise patterns, 5/12/40/200 points, good and poor starts, every budget 0..=60 (200) and 200; every (configuration, budget) pair is a distinct non-trivial case");
     let _ = Vector::new(vec![0.0]);
     first_order(run);
     lm_suite(run);
